@@ -254,6 +254,27 @@ def ckey(c):
     return c.op
 
 
+def canon_guard(g):
+    """canonical text of a guard element: double negations and negated comparisons are folded"""
+    g = g.strip()
+    while True:
+        if g.startswith("not not "):
+            g = g[8:]
+            continue
+        if g.startswith("not not("):
+            g = g[7:]
+            if g.startswith("(") and g.endswith(")"):
+                g = g[1:-1]
+            continue
+        break
+    for a, b in (("Ne(", "Eq("), ("Eq(", "Ne("), ("Lt(", "Ge("), ("Ge(", "Lt("), ("Gt(", "Le("), ("Le(", "Gt(")):
+        if g.startswith("not " + a):
+            return b + g[len("not " + a):]
+    if g.startswith("not not(") and g.endswith(")"):
+        return g[8:-1]
+    return g
+
+
 def cnot(c):
     if isinstance(c, Cond):
         if c.op == "not":
@@ -301,6 +322,17 @@ def mkcmp(op, a, b):
             ins = set(x for x in a.b if x != 0)
             if ins and all(isinstance(x, tuple) for x in ins):
                 return Cond("any", frozenset(ins), op == "Ne")
+        # a value with exactly one free bit (all others constant 0) compared with a constant: `(x & M) == M`
+        if b.is_const() and op in ("Eq", "Ne"):
+            nzpos = [j for j, x in enumerate(a.b) if x != 0]
+            if len(nzpos) == 1 and isinstance(a.b[nzpos[0]], tuple) and all(x == 0 or j == nzpos[0] for j, x in enumerate(a.b)):
+                j = nzpos[0]
+                cv = b.value()
+                if cv == (1 << j):
+                    return Cond("any", frozenset([a.b[j]]), op == "Eq")
+                if cv == 0:
+                    return Cond("any", frozenset([a.b[j]]), op == "Ne")
+                return Cond("true" if op == "Ne" else "false")
         # single input bit compared with 1
         if b.is_const() and b.value() == 1 and op in ("Eq", "Ne"):
             nz = [x for x in a.b if x != 0]
@@ -1090,7 +1122,16 @@ class Evaluator:
                         v = self.eval(tb, st["init"], env, depth)
                     except Unsupported:
                         v = Sym("unsupported")
-                    self.bind(st["pat"], v, env)
+                    if st.get("else") is not None:
+                        # let-else: the else block diverges; what follows runs only when the pattern matched
+                        c, binds = self.pat_cond(st["pat"], v, env)
+                        eb = tb.blocks[st["else"]]
+                        self._collect_block(tb, eb, dict(env), depth, follow, out, guard + ("not " + ckey(c),), path)
+                        env.update(binds)
+                        if not (isinstance(c, Cond) and c.op == "true"):
+                            guard = guard + (ckey(c),)
+                    else:
+                        self.bind(st["pat"], v, env)
             else:
                 r = self._collect(tb, st["e"], env, depth, follow, out, guard, path)
                 if isinstance(r, tuple) and r and r[0] == "if-diverges":
@@ -1227,7 +1268,7 @@ class Evaluator:
             out.append({"ret": rv, "guard": guard, "fn": path, "node": i, "tb": tb})
         if k == "Call" and getattr(self, "watch", None):
             callee = n.get("res") or n.get("fn") or ""
-            if self.watch(callee):
+            if self.watch(callee) and not (follow and callee in self.f.fns and callee != path and follow(callee)):
                 try:
                     cargv = [self.eval(tb, a, env, depth) for a in n["args"]]
                     cargs = [vkey(x)[:60000] for x in cargv]
